@@ -71,6 +71,14 @@ pub struct GenCfg {
     pub p_repeat_site: u64,
     /// unknown functions may be called (with a constant argument)
     pub allow_unknown_fn: bool,
+    /// per-mille: a long left-nested chain of one operator (and / or / +) with up to `max_chain` operands
+    pub p_chain: u64,
+    pub max_chain: usize,
+    /// per-mille: a tower of nested unary operators of up to `max_tower` levels around a leaf
+    pub p_tower: u64,
+    pub max_tower: usize,
+    /// per-mille: reuse an earlier call sub-expression verbatim (textually identical calls)
+    pub p_repeat_subtree: u64,
 }
 
 impl GenCfg {
@@ -89,6 +97,11 @@ impl GenCfg {
             allow_in: false,
             p_repeat_site: 0,
             allow_unknown_fn: true,
+            p_chain: *rng.pick(&[0, 0, 30, 80]),
+            max_chain: 48,
+            p_tower: 0,
+            max_tower: 0,
+            p_repeat_subtree: 0,
         }
     }
 }
@@ -109,6 +122,8 @@ pub struct Gen<'r> {
     pub next_site: i64,
     pub nodes: usize,
     pub probes: usize,
+    /// call sub-expressions generated so far, by result type
+    pub subtrees: Vec<(Ty, X)>,
 }
 
 const STRS: [&str; 8] = ["", "a", "ab", "Abc", " pad ", "12", "xyz", "a\"q"];
@@ -116,7 +131,7 @@ const KEYS: [&str; 6] = ["b", "a", "Z", "m", "k2", "c_c"];
 
 impl<'r> Gen<'r> {
     pub fn new(rng: &'r mut Rng, cfg: GenCfg, refs: Vec<(String, Ty)>, syms: Vec<(String, Ty)>) -> Self {
-        Gen { rng, cfg, refs, syms, sites: vec![], next_site: 100, nodes: 0, probes: 0 }
+        Gen { rng, cfg, refs, syms, sites: vec![], next_site: 100, nodes: 0, probes: 0, subtrees: vec![] }
     }
 
     fn pm(&mut self, p: u64) -> bool {
@@ -165,11 +180,21 @@ impl<'r> Gen<'r> {
     pub fn site(&mut self, ty: Ty, depth: u32) -> X {
         self.probes += 1;
         let fname = fn_for(ty);
-        if depth > 0 && self.pm(self.cfg.p_nested_call) {
+        if self.pm(self.cfg.p_repeat_subtree) {
+            let same: Vec<X> = self.subtrees.iter().filter(|(t, _)| *t == ty).map(|(_, x)| x.clone()).collect();
+            if !same.is_empty() {
+                return self.rng.pick(&same).clone();
+            }
+        }
+        if depth > 0 && self.rng.chance(2, 3) {
             // dynamic argument: result comes from the function's default script
             let aty = *self.rng.pick(&ALL_TYS);
-            let arg = self.gen(aty, depth - 1);
-            return X::call(fname, arg);
+            let arg = if self.rng.chance(1, 2) { self.site(aty, depth - 1) } else { self.gen(aty, depth - 1) };
+            let x = X::call(fname, arg);
+            if self.subtrees.len() < 8 {
+                self.subtrees.push((ty, x.clone()));
+            }
+            return x;
         }
         if !self.sites.is_empty() && self.pm(self.cfg.p_repeat_site) {
             let s = self.rng.pick(&self.sites).clone();
@@ -242,7 +267,44 @@ impl<'r> Gen<'r> {
         if depth == 0 || self.nodes >= self.cfg.max_nodes {
             return self.leaf(ty);
         }
+        if self.probes < self.cfg.max_probes && self.pm(self.cfg.p_nested_call / 2) {
+            // a call whose argument is itself an expression (possibly another call)
+            return self.site(ty, depth);
+        }
         let d = depth - 1;
+        if (ty == Ty::Bool || ty == Ty::Int) && self.pm(self.cfg.p_chain) {
+            // a long left-nested chain of one operator; operands are leaves that (mostly) do not decide
+            let n = 2 + self.rng.usize(self.cfg.max_chain.max(3) - 1);
+            let op = if ty == Ty::Int { BinOp::Add } else if self.rng.chance(1, 2) { BinOp::And } else { BinOp::Or };
+            let neutral = XV::B(op == BinOp::And);
+            let mut items: Vec<X> = Vec::with_capacity(n);
+            for _ in 0..n {
+                let item = if ty == Ty::Int {
+                    self.leaf(Ty::Int)
+                } else if self.rng.chance(3, 4) {
+                    if self.probes < self.cfg.max_probes + 40 && self.rng.chance(1, 3) {
+                        // a probe scripted to return the non-deciding value
+                        self.probes += 1;
+                        let k = self.next_site;
+                        self.next_site += 1;
+                        self.sites.push(Site { k, ty: Ty::Bool, out: ScriptOut::Ok(neutral.clone()) });
+                        X::call(fn_for(Ty::Bool), X::int(k))
+                    } else {
+                        X::Val(neutral.clone())
+                    }
+                } else {
+                    self.leaf(Ty::Bool)
+                };
+                items.push(item);
+            }
+            return X::Chain(op, items);
+        }
+        if (ty == Ty::Int || ty == Ty::Bool) && self.cfg.max_tower > 0 && self.pm(self.cfg.p_tower) {
+            let n = 1 + self.rng.usize(self.cfg.max_tower);
+            let op = if ty == Ty::Int { UnOp::Neg } else { UnOp::Not };
+            let x = self.site(ty, 0);
+            return X::Tower(op, n as u32, Box::new(x));
+        }
         // lazy constructs can produce any type (if) or bool (and/or/eq)
         if self.pm(self.cfg.p_lazy_node) {
             match (ty, self.rng.below(4)) {
